@@ -3,6 +3,7 @@ import CookModel.Lemmas.Diag
 import CookModel.Lemmas.DiagComp
 import CookModel.Lemmas.DiagAnalysis
 import CookModel.Lemmas.DiagMore
+import CookModel.Lemmas.DiagInside
 /-
   C07  Diagnostics are sound, complete and placed on the offending construct.
 
@@ -445,6 +446,55 @@ def C07_exInterCw : BP Rat :=
 example : ∃ mtoks body s1 s2 s3, Cut .hash C07_exInterCw mtoks body s1 s2 s3 ∧
     (parseModifiers (α := Rat) mtoks (curOff s1) s3).1.inter = some ⟨⟨false, false, 1⟩, ⟨2, 5⟩⟩ :=
   ⟨_, _, _, _, _, ⟨⟨_, rfl⟩, rfl, rfl⟩, rfl⟩
+
+/-! ### Placement: labels inside the construct -/
+
+/-- **Every label of every diagnostic of an ingredient lies inside the ingredient.**  Run `ingredient`
+    from any parser state whose token list is a block (non-empty, adjacent tokens: what the block
+    splitter produces, `WF`) with the cursor inside and no earlier panic.  If it returns the ingredient
+    `i`, then the events it pushed are all parse diagnostics (errors or warnings: empty name, alias
+    errors, duplicate modifier, every intermediate-reference syntax error, zero denominator, integer
+    overflow, empty value, empty unit, …), and EVERY label `sp` of each of them is a well-formed span
+    inside the span of the ingredient: `i.span.start ≤ sp.start ≤ sp.stop ≤ i.span.stop`.
+    The span starts at the `@` (the `current_offset` of the cursor). -/
+theorem C07_label_inside_ingredient (s s' : BP α) (i : Loc (PIngredient α)) (hw : WF s.toks)
+    (hp : s.panic = none) (hcur : s.cur ≤ s.toks.length)
+    (h : ingredientP s = (some (.ingredient i), s')) :
+    i.span.start = curOff s ∧
+    ∃ l, s'.evs.toList = s.evs.toList ++ l ∧ ∀ x ∈ l, ∃ d, (x = .error d ∨ x = .warning d) ∧
+      ∀ sp ∈ d.labels, i.span.start ≤ sp.start ∧ sp.start ≤ sp.stop ∧ sp.stop ≤ i.span.stop := by
+  obtain ⟨h1, l, hl, hall⟩ := ingredientP_labels_inside hw (⟨rfl, rfl, hp, hcur⟩ : G s.toks s.ext s) h
+  refine ⟨h1, l, hl, ?_⟩
+  intro x hx
+  have := hall x hx
+  cases x <;> first | exact ⟨_, Or.inl rfl, this⟩ | exact ⟨_, Or.inr rfl, this⟩ | exact this.elim
+
+/-- the same for a cookware item (additionally: unit on cookware, recipe modifier, intermediate data) -/
+theorem C07_label_inside_cookware (s s' : BP α) (c : Loc (PCookware α)) (hw : WF s.toks)
+    (hp : s.panic = none) (hcur : s.cur ≤ s.toks.length)
+    (h : cookwareP s = (some (.cookware c), s')) :
+    c.span.start = curOff s ∧
+    ∃ l, s'.evs.toList = s.evs.toList ++ l ∧ ∀ x ∈ l, ∃ d, (x = .error d ∨ x = .warning d) ∧
+      ∀ sp ∈ d.labels, c.span.start ≤ sp.start ∧ sp.start ≤ sp.stop ∧ sp.stop ≤ c.span.stop := by
+  obtain ⟨h1, l, hl, hall⟩ := cookwareP_labels_inside hw (⟨rfl, rfl, hp, hcur⟩ : G s.toks s.ext s) h
+  refine ⟨h1, l, hl, ?_⟩
+  intro x hx
+  have := hall x hx
+  cases x <;> first | exact ⟨_, Or.inl rfl, this⟩ | exact ⟨_, Or.inr rfl, this⟩ | exact this.elim
+
+/-! non-vacuity: the token list of `@&&x{}` is a block and `ingredient` succeeds on it (and pushes one error) -/
+example : WF C07_exDup.toks ∧ ∃ i s', ingredientP C07_exDup = (some (.ingredient i), s') := by
+  refine ⟨WF.of_chain (off := 0) (by simp [C07_exDup, Chain, Tok.stop, utf8Len]; decide)
+    (by intro t ht; simp [C07_exDup] at ht; rcases ht with rfl | rfl | rfl | rfl | rfl | rfl <;> simp)
+    (by simp [C07_exDup]), ?_⟩
+  have hc : ∃ body note s1 s2 s3 s4, Cut .at C07_exDup [⟨.and, ['&'], 1⟩, ⟨.and, ['&'], 2⟩] body s1 s2 s3 ∧
+      noteP s3 = (note, s4) ∧ body.quantity = none ∧
+      (buildText (curOff s2) body.name).isTextEmpty C07_exDup.cs = false :=
+    ⟨_, _, _, _, _, _, ⟨⟨_, rfl⟩, rfl, rfl⟩, rfl, rfl, rfl⟩
+  obtain ⟨body, note, s1, s2, s3, s4, hcut, hn, hq, hne⟩ := hc
+  have h := (C07_duplicate_modifier C07_exDup s1 s2 s3 s4 _ body note (by unfold SimpleMods; decide) hq
+    (Or.inl rfl) hne hn).1 hcut
+  exact ⟨_, (ingredientP C07_exDup).2, Prod.ext h.1 rfl⟩
 
 /-! ### Completeness in isolation, analysis level (src/analysis/event_consumer.rs) -/
 
